@@ -46,6 +46,7 @@ static void warmup(cfg_t c) {
  *   f decode_cleanup
  *   R reconstruct a missing fragment      r reconstruct with an out-of-range destination
  *   N fragments_needed                    M get_fragment_metadata + is_invalid_fragment + verify_stripe
+ *   L encode of a length beyond the int size arithmetic (refused), output variables holding stale pointers
  * followed by <pat>: the set of fragments withheld by S, U and R (bit mask; between 1 and tolerance
  * fragments, a data fragment among them); R rebuilds the lowest withheld fragment.
  */
@@ -56,6 +57,7 @@ static void run_ledger(void *va, FILE *out) {
     cfg_t c = L->c;
     int desc = -1;
     char **ed = NULL, **ep = NULL; uint64_t flen = 0; char *od = NULL; uint64_t ol = 0;
+    char **stale_ed = NULL, **stale_ep = NULL;
     unsigned char data[157]; for (int i = 0; i < 157; i++) data[i] = (unsigned char)(i * 13 + 5);
     int have_enc = 0;
     char *work[80]; unsigned char *bufs[80]; int nb = 0;
@@ -72,7 +74,12 @@ static void run_ledger(void *va, FILE *out) {
         case 'D': if (desc > 0 && !have_enc && !od) { liberasurecode_instance_destroy(desc); desc = -1; } break;
         case 'E': if (desc > 0 && !have_enc) { rc = liberasurecode_encode(desc, (char *)data, 157, &ed, &ep, &flen); have_enc = rc == 0; } break;
         case 'e': { char **a = NULL, **b = NULL; uint64_t fl = 0; rc = liberasurecode_encode(desc > 0 ? desc : 1, NULL, 10, &a, &b, &fl); } break;
-        case 'c': if (have_enc) { liberasurecode_encode_cleanup(desc, ed, ep); have_enc = 0; ed = ep = NULL; } break;
+        case 'c': if (have_enc) { liberasurecode_encode_cleanup(desc, ed, ep); have_enc = 0; stale_ed = ed; stale_ep = ep; ed = ep = NULL; } break;
+        case 'L': { /* a length the int arithmetic cannot hold: refused, and the caller's output variables (still holding the
+                       released results of an earlier encode) are left alone */
+                    char **a = stale_ed, **b = stale_ep; uint64_t fl = 0;
+                    rc = liberasurecode_encode(desc > 0 ? desc : 1, (char *)data, (1ull << 32) + 4096, &a, &b, &fl);
+                    if (rc == 0) liberasurecode_encode_cleanup(desc, a, b); } break;
         case 'F': case 'S': case 'U': case 'I': case 'B': case 'V':
             if (have_enc && !od) {
                 int n = 0; nb = 0;
@@ -142,7 +149,7 @@ void suite_ledger(int tier) {
         /* sanitizer build: the same histories run for their side effects (ASan: use after free,
            double free, overflow; LeakSanitizer at exit) */
     }
-    const char *alphabet = "CXDEecFSUIBVfRrNM";
+    const char *alphabet = "CXDEecFSUIBVfRrNML";
     int na = (int)strlen(alphabet);
     cfg_t cfgs[] = { {6,4,2,2,2}, {6,1,1,1,2}, {3,5,5,3,2}, {3,10,6,4,2}, {0,3,2,2,2}, {6,10,4,4,2} };
     int nh = tier ? 400 : 50;
@@ -283,7 +290,85 @@ static void run_fault(void *va, FILE *out) {
     LEAK_CHECK(real_out);
 }
 
+/* natural failures: no stub — the backend's own code fails (unsupported shape inside init, erasure set
+   beyond what the code can repair) */
+typedef struct { int be, k, m, hd; uint64_t mask; } natfail_t;
+static void run_natfail(void *va, FILE *out) {
+    natfail_t *N = va;
+    unsigned char data[97]; for (int i = 0; i < 97; i++) data[i] = (unsigned char)(i * 7 + 1);
+    struct ec_args a; memset(&a, 0, sizeof a); a.k = N->k; a.m = N->m; a.hd = N->hd; a.ct = CHKSUM_CRC32;
+    warmup((cfg_t){ 6, 2, 1, 1, 2 });
+    { /* the failing shape itself once before the ledger starts (first-time loader / log allocations) */
+        int d0 = liberasurecode_instance_create((ec_backend_id_t)N->be, &a); if (d0 > 0) liberasurecode_instance_destroy(d0); }
+    static char accbuf[1024]; FILE *real_out = out; out = fmemopen(accbuf, sizeof accbuf, "w"); setvbuf(out, NULL, _IONBF, 0);
+    mt_on();
+    long held = 0, before = mt_blocks();
+    int desc = liberasurecode_instance_create((ec_backend_id_t)N->be, &a);
+    if (desc <= 0) {
+        held = mt_blocks() - before;
+        /* again, several times: a per-call leak adds up */
+        for (int r = 0; r < 5; r++) (void)liberasurecode_instance_create((ec_backend_id_t)N->be, &a);
+        long endb = mt_blocks() - before;
+        mt_off();
+        fprintf(out, "c=%d held=%ld end=%ld", desc, mt_available() ? held : 0, mt_available() ? endb : 0);
+    } else {
+        char **ed = NULL, **ep = NULL; uint64_t fl = 0;
+        int rc = liberasurecode_encode(desc, (char *)data, 97, &ed, &ep, &fl);
+        if (rc != 0) { fprintf(out, "c=0 e=err %d held=%ld", rc, mt_available() ? mt_blocks() - before - 0 : 0); }
+        else {
+            int n = N->k + N->m; char *fr[80]; int cnt = 0, dest = 0, have = 0;
+            for (int i = 0; i < n; i++) { if ((N->mask >> i) & 1) { if (!have) { dest = i; have = 1; } } else fr[cnt++] = i < N->k ? ed[i] : ep[i - N->k]; }
+            long b0 = mt_blocks();
+            char *od = NULL; uint64_t ol = 0;
+            int rd = liberasurecode_decode(desc, fr, cnt, fl, 0, &od, &ol);
+            if (rd == 0) { fprintf(out, "c=0 d=%d", (ol == 97 && !memcmp(od, data, 97)) ? 0 : 1); liberasurecode_decode_cleanup(desc, od); }
+            else { fprintf(out, "c=0 d=err %d", rd); }
+            held += mt_blocks() - b0;
+            b0 = mt_blocks();
+            mt_off(); char *of = malloc(fl); mt_on();
+            int rr = liberasurecode_reconstruct_fragment(desc, fr, cnt, fl, dest, of);
+            if (rr == 0) fprintf(out, " r=%d", memcmp(of, dest < N->k ? ed[dest] : ep[dest - N->k], fl) ? 1 : 0); else fprintf(out, " r=err %d", rr);
+            mt_off(); free(of); mt_on();
+            held += mt_blocks() - b0;
+            liberasurecode_encode_cleanup(desc, ed, ep);
+            fprintf(out, " held=%ld", mt_available() ? held : 0);
+        }
+        liberasurecode_instance_destroy(desc);
+        mt_off();
+        fprintf(out, " end=%ld", mt_available() ? mt_blocks() - before : 0);
+    }
+    if (mt_double_frees()) fprintf(out, " DOUBLE-FREE");
+    fclose(out);
+    fputs(accbuf, real_out);
+    LEAK_CHECK(real_out);
+}
+
+static void natfail_emit(int be, int k, int m, int hd, uint64_t mask) {
+    natfail_t N = { be, k, m, hd, mask };
+    op_begin("natfail %d %d %d %d %llu", be, k, m, hd, (unsigned long long)mask); op_sep();
+    guarded(run_natfail, &N);
+    stat_add("fault.natural", 1);
+}
+
 void suite_fault(int tier) {
+    /* shapes the backend's own init refuses */
+    {
+        static const int bad[][4] = { {3,10,4,3}, {3,3,3,4}, {3,12,6,5}, {3,4,4,3}, {3,16,6,3}, {3,2,5,3}, {3,21,6,4}, {3,11,5,4}, {3,5,5,2}, {6,0,2,2}, {6,30,3,3}, {0,0,1,1} };
+        for (unsigned i = 0; i < sizeof bad / sizeof bad[0]; i++) natfail_emit(bad[i][0], bad[i][1], bad[i][2], bad[i][3], 1);
+        if (g_isal) { natfail_emit(4, 40, 4, 4, 1); natfail_emit(7, 3, 40, 40, 1); }
+    }
+    /* erasure sets beyond the tolerance: hd..m lost for flat XOR (the backend's decoder gives up, or repairs),
+       m+1 for the others (refused by the front end) */
+    for (int x = 0; x < n_xor_shapes; x++) {
+        int k = xor_shapes[x][0], m = xor_shapes[x][1], hd = xor_shapes[x][2];
+        if (!tier && rnd(3)) continue;
+        for (int q = 0; q < (tier ? 12 : 3); q++) {
+            int cnt = hd + (int)rnd(m - hd + 1); uint64_t g = 0; int have = 0;
+            while (have < cnt) { int i = (int)rnd(q == 0 ? k : k + m); if (!((g >> i) & 1)) { g |= 1ull << i; have++; } }
+            natfail_emit(3, k, m, hd, g);
+        }
+    }
+    natfail_emit(6, 4, 2, 2, 0x7); natfail_emit(6, 4, 2, 2, 0x31); natfail_emit(0, 3, 2, 2, 0x3);
     (void)tier;
     cfg_t cfgs[] = { {6,4,2,2,2}, {3,5,5,3,2}, {0,3,2,2,2}, {4,4,2,2,2}, {6,1,1,1,2}, {3,10,6,4,2}, {7,3,3,3,2} };
     for (unsigned ci = 0; ci < (tier ? 7u : 4u); ci++) for (int op = 0; op < 5; op++) for (int n = 0; n < 3; n++) {
@@ -349,6 +434,46 @@ static void run_pure(void *va, FILE *out) {
         fprintf(out, bad ? "DIFFERENT" : "same");
     }
     for (int i = 0; i < n; i++) guard_free(&gs[i]);
+}
+
+/* every erasure set of the tolerated sizes (data-only sets first: for flat XOR they take the rare decoder
+   paths), inputs on read-only pages that end at a guard page — once ending at the guard page, once
+   16-byte aligned (aligned inputs are used in place by the library, others are copied first) */
+typedef struct { cfg_t c; size_t len; } psweep_a;
+static void run_pure_sweep(void *va, FILE *out) {
+    psweep_a *a = va; cfg_t c = a->c;
+    stripe_t s;
+    if (stripe_make(&s, c, a->len, 0, 0) != 0) { fprintf(out, "err encode"); return; }
+    int tol = cfg_tolerance(c); if (tol > 3) tol = 3;
+    guard_t gs[80];
+    for (int i = 0; i < s.n; i++) gs[i] = guard_make(s.all[i], s.flen);
+    long done = 0;
+    for (int e = tol; e >= 1; e--) {
+        if (e > c.k) continue;
+        int idx[4] = { 0, 1, 2, 3 };
+        for (;;) {
+            uint64_t pat = 0; for (int i = 0; i < e; i++) pat |= 1ull << idx[i];
+            char *fr[80]; int n = 0;
+            for (int i = 0; i < s.n; i++) if (!((pat >> i) & 1)) fr[n++] = (char *)gs[i].p;
+            if (g_progress) snprintf(g_progress, 200, "in decode/reconstruct of be=%d (%d,%d,%d) len=%zu without mask %llx (inputs read-only)", c.be, c.k, c.m, c.hd, a->len, (unsigned long long)pat);
+            char *od = NULL; uint64_t ol = 0;
+            int rc = liberasurecode_decode(s.desc, fr, n, s.flen, 0, &od, &ol);
+            if (rc != 0 || ol != s.len || memcmp(od, s.data, ol)) { fprintf(out, "DIFFERENT decode mask %llx rc=%d", (unsigned long long)pat, rc); return; }
+            liberasurecode_decode_cleanup(s.desc, od);
+            char *of = malloc(s.flen);
+            rc = liberasurecode_reconstruct_fragment(s.desc, fr, n, s.flen, idx[0], of);
+            if (rc != 0 || memcmp(of, s.all[idx[0]], s.flen)) { fprintf(out, "DIFFERENT reconstruct mask %llx rc=%d", (unsigned long long)pat, rc); free(of); return; }
+            free(of);
+            done++;
+            int i = e - 1;
+            while (i >= 0 && idx[i] == c.k - e + i) i--;
+            if (i < 0) break;
+            idx[i]++; for (int j = i + 1; j < e; j++) idx[j] = idx[j - 1] + 1;
+        }
+    }
+    for (int i = 0; i < s.n; i++) guard_free(&gs[i]);
+    if (g_progress) g_progress[0] = 0;
+    fprintf(out, "same");
 }
 
 static void *thread_encode(void *va) {
@@ -448,6 +573,19 @@ void churn(const char *prop, int tier, int rs_only) {
 
 void suite_pure(int tier) {
     for (int r = 0; r < (tier ? 12 : 3); r++) churn("C15", tier, 0);
+    /* read-only inputs over every erasure set */
+    {
+        static const cfg_t base[] = { {3,6,5,4,2}, {3,10,6,4,1}, {3,5,5,3,2}, {6,4,2,2,2}, {6,3,3,3,1}, {3,12,6,4,2}, {3,6,6,4,1}, {3,10,5,3,2} };
+        for (unsigned ci = 0; ci < (tier ? 8u : 5u); ci++) for (int al = 0; al < 2; al++) {
+            cfg_t c = base[ci];
+            /* al=1: payload a multiple of 16, so that the 80-byte header + payload ends AND starts 16-byte aligned */
+            size_t len = al ? (size_t)c.k * 16 * (1 + rnd(3)) : (size_t)c.k * 4 * (1 + rnd(5)) - rnd(3);
+            psweep_a a = { c, len };
+            op_begin("pure sweep %d %d %d %d %zu", c.be, c.k, c.m, c.hd, len); op_sep();
+            guarded(run_pure_sweep, &a);
+            stat_add("pure.sweeps", 1);
+        }
+    }
     int cases = tier ? 200 : 30;
     for (int t = 0; t < cases; t++) {
         cfg_t c = cfg_random_ec();
